@@ -14,7 +14,9 @@ func newArrayChecker() arrayChecker {
 }
 
 func (arrayChecker) Check(nodeLex lexeme.LexEvent) errors.Error {
-	if nodeLex.Type() != lexeme.ArrayEnd {
+	// An array node is checked by the lexeme it begins with (see
+	// schema.Node.BasisLexEventOfSchemaForNode).
+	if nodeLex.Type() != lexeme.ArrayBegin {
 		return lexeme.NewLexEventError(nodeLex, errors.ErrChecker)
 	}
 
